@@ -175,6 +175,7 @@ func StructToMap(data any) map[string]any {
 
 // PopulateStructFields adds exported struct fields to the map using JSON tags.
 // Nested structs are converted to maps to support path resolution like item.inStock.
+// The keys of a string-keyed map are added as they are.
 func PopulateStructFields(m map[string]any, data any) {
 	if data == nil {
 		return
@@ -187,6 +188,16 @@ func PopulateStructFields(m map[string]any, data any) {
 			return
 		}
 		rv = rv.Elem()
+	}
+
+	// A map keyed by strings (map[string]string, map[string]int, a named map type, ...):
+	// its keys are names, exactly as Stack.Lookup resolves them on the root data.
+	if rv.Kind() == reflect.Map && rv.Type().Key().Kind() == reflect.String {
+		iter := rv.MapRange()
+		for iter.Next() {
+			m[iter.Key().String()] = iter.Value().Interface()
+		}
+		return
 	}
 
 	if rv.Kind() != reflect.Struct {
